@@ -435,6 +435,13 @@ func (b *bufferComp) Oracle(c Case, impl []string) string {
 				return fmt.Sprintf("[key=buffer-file-after-confirm] chunk %d was confirmed but its file is still in the queue directory", id)
 			}
 		}
+		// C19: the pending gauge balances with the counters after every operation
+		{
+			gi := func(k string) int64 { v, _ := strconv.ParseInt(kv[k], 10, 64); return v }
+			if gi("p") != gi("it")+gi("ip")-gi("co")-gi("lo")-gi("dr") {
+				return fmt.Sprintf("[key=metric-pending] pending %d != input %d+%d - consumed %d - leftover %d - dropped %d", gi("p"), gi("it"), gi("ip"), gi("co"), gi("lo"), gi("dr"))
+			}
+		}
 		if n, _ := strconv.Atoi(kv["out"]); n > memCap {
 			return fmt.Sprintf("[key=buffer-window] %d chunks in the output window, cap %d", n, memCap)
 		}
